@@ -433,9 +433,9 @@ class CircuitCnotCount(MetricBase):
         super().__init__(log_steps=log_steps, *args, **kwargs)
         self.differentiable = False
         if n_cnot_penalty is None:
-            self.n_emitter_penalty = (
+            self.n_cnot_penalty = (
                 lambda x: x
-            )  # by default, the number emitters itself
+            )  # by default, the number of CNOTs itself
         else:
             self.n_cnot_penalty = n_cnot_penalty
 
@@ -452,7 +452,7 @@ class CircuitCnotCount(MetricBase):
         :rtype: float or int
         """
 
-        if "Emitter-Emitter" in circuit.node_dict:
+        if "Emitter-Emitter" in circuit.node_dict and "CNOT" in circuit.node_dict:
             n = len(circuit.get_node_by_labels(["Emitter-Emitter", "CNOT"]))
         else:
             n = 0
